@@ -64,3 +64,11 @@ func init() {
 		return cls.String() + "|" + strings.Join(vis, ",")
 	})
 }
+
+func init() {
+	// heapmut: malformed heap files; the scan must return (C10)
+	core.Register("heapmut", func(args []string) string {
+		pgdump.ReadTuples(unhex(args[1]), args[0] == "1")
+		return "ok"
+	})
+}
